@@ -179,7 +179,8 @@ inductive Step (α : Type) where
   | evAdd (f : String) (l : Load α)
   /-- watcher: `IN_DELETE | IN_MOVED_FROM` for `f` -/
   | evRemove (f : String)
-  /-- watcher: `IN_DELETE_SELF | IN_MOVE_SELF`: deregister, set the flag -/
+  /-- watcher: `IN_DELETE_SELF | IN_MOVE_SELF | IN_Q_OVERFLOW` (the directory went away, or the kernel dropped events):
+  deregister, set the flag - the main loop arms a new watch and re-scans -/
   | evSelf
   /-- main thread performs its next atomic step; `dir` = what `Fs::isDir` / `Fs::readDir` see if that step
   is a `tick()` with the flag set (`none`: not a directory) -/
@@ -218,6 +219,34 @@ def init {α : Type} (fx : Fixes) (dir : Option (List (String × Load α))) : Re
     | .fatal => .fatal
     | .ok xs => .ok { ((St.empty : St α).emit xs) with observed := obsOfFiles files }
 
+def Obs.name {α : Type} : Obs α → String
+  | .add f _ => f
+  | .rem f => f
+
+/-- the items one observation puts into the queue -/
+def itemsOfObs {α : Type} (fx : Fixes) : Obs α → List (Item α)
+  | .add f l => match processAdd fx f l with | .ok xs => xs | .fatal => []
+  | .rem f => processRemove f
+
+/-- the last observation of name `f`, if any -/
+def lastObsOf {α : Type} (f : String) (obs : List (Obs α)) : Option (Obs α) :=
+  obs.reverse.find? (fun o => o.name == f)
+
+/-- `seen_files_` membership: `processDropInAdd` inserts the name (whatever the load gives), `processDropInRemove` erases it -/
+def isSeen {α : Type} (obs : List (Obs α)) (f : String) : Bool :=
+  match lastObsOf f obs with
+  | some (.add _ _) => !isDot f
+  | _ => false
+
+/-- what `resyncDropInDir` looks at, in order: a removal for every seen name (from `seen`) that is not in the directory, then a
+load of every file present (`std::set` iteration = name order) -/
+def resyncObs {α : Type} (seen : List String) (files : List (String × Load α)) : List (Obs α) :=
+  (seen.filter fun f => !(files.any fun p => p.1 == f)).map Obs.rem ++ obsOfFiles files
+
+/-- the names in `seen_files_`, as a list (order immaterial: their removals commute) -/
+def seenList {α : Type} (obs : List (Obs α)) : List String :=
+  ((obs.map Obs.name).eraseDups).filter (isSeen obs)
+
 def step {α : Type} (fx : Fixes) (s : St α) : Step α → Res (St α)
   | .evAdd f l =>
     match processAdd fx f l with
@@ -229,15 +258,20 @@ def step {α : Type} (fx : Fixes) (s : St α) : Step α → Res (St α)
     match s.pc with
     | .top =>
       -- FsDropInService::tick()
+      -- (re-registration = `prepDropInWatcher` = `resyncDropInDir`: the seen names that are gone are removed, the files
+      -- present are loaded in name order; when the directory does not exist everything seen is removed and the flag stays)
       if s.deleted then
         match dir with
-        | none => .ok { s with pc := .ticked }
+        | none =>
+          let o := resyncObs (seenList s.observed) ([] : List (String × Load α))
+          .ok { (s.emit (o.flatMap (itemsOfObs fx))) with pc := .ticked, observed := s.observed ++ o }
         | some files =>
           match prep fx files with
           | .fatal => .fatal
-          | .ok xs =>
-            .ok { (s.emit xs) with deleted := false, pc := .ticked,
-                                   observed := s.observed ++ obsOfFiles files }
+          | .ok _ =>
+            let o := resyncObs (seenList s.observed) files
+            .ok { (s.emit (o.flatMap (itemsOfObs fx))) with deleted := false, pc := .ticked,
+                                                            observed := s.observed ++ o }
       else .ok { s with pc := .ticked }
     | .ticked =>
       -- { lock_guard lock(queue_mutex_); drop_in_queue = std::move(drop_in_queue_); }
@@ -275,10 +309,6 @@ def lwwSpec {α : Type} (items : List (Item α)) : List (String × α) :=
 def lastFor {α : Type} (t : String) (items : List (Item α)) : Option (Option α) :=
   (items.reverse.find? (fun it => it.1 == t)).map (·.2)
 
-def Obs.name {α : Type} : Obs α → String
-  | .add f _ => f
-  | .rem f => f
-
 def Obs.load {α : Type} : Obs α → Load α
   | .add _ l => l
   | .rem _ => .noFile
@@ -286,11 +316,6 @@ def Obs.load {α : Type} : Obs α → Load α
 /-- the last thing either thread saw of name `f` -/
 def lastObs {α : Type} (f : String) (obs : List (Obs α)) : Option (Load α) :=
   (obs.reverse.find? (fun o => o.name == f)).map Obs.load
-
-/-- the items one observation puts into the queue -/
-def itemsOfObs {α : Type} (fx : Fixes) : Obs α → List (Item α)
-  | .add f l => match processAdd fx f l with | .ok xs => xs | .fatal => []
-  | .rem f => processRemove f
 
 /-- a state some schedule can reach from the constructor -/
 def Reachable (fx : Fixes) (s : St α) : Prop :=
@@ -313,21 +338,6 @@ def Faithful (final : String → Load α) (obs : List (Obs α)) : Prop :=
 When more events arrive than the inotify queue holds, the kernel drops events: the observations of the service then no
 longer end with the final state of every name, i.e. `Faithful` fails.  The repaired service keeps `seen_files_` - the names
 whose last processing was a load - and on `IN_Q_OVERFLOW` removes the seen names that are gone and loads everything present. -/
-
-/-- the last observation of name `f`, if any -/
-def lastObsOf {α : Type} (f : String) (obs : List (Obs α)) : Option (Obs α) :=
-  obs.reverse.find? (fun o => o.name == f)
-
-/-- `seen_files_` membership: `processDropInAdd` inserts the name (whatever the load gives), `processDropInRemove` erases it -/
-def isSeen {α : Type} (obs : List (Obs α)) (f : String) : Bool :=
-  match lastObsOf f obs with
-  | some (.add _ _) => !isDot f
-  | _ => false
-
-/-- what `resyncDropInDir` looks at, in order: a removal for every seen name (from `seen`) that is not in the directory, then a
-load of every file present (`std::set` iteration = name order) -/
-def resyncObs {α : Type} (seen : List String) (files : List (String × Load α)) : List (Obs α) :=
-  (seen.filter fun f => !(files.any fun p => p.1 == f)).map Obs.rem ++ obsOfFiles files
 
 /-! ## executable helpers for the driver -/
 
